@@ -95,24 +95,6 @@ impl Broker {
     //@fn-from broker_handlers_subs broker/src/broker.rs Broker::remove_subscription
 
     // ---- bookkeeping predicates for the teardown of connection `id`, whose (removed) record is `conn` ---------------------
-    // some connected client has the numeric id `i`
-    spec fn connected_id(&self, i: int) -> bool {
-        exists|k: ConnectionId| #![trigger self.conns@.contains_key(k)] self.conns@.contains_key(k) && k.id() == i
-    }
-
-    // (strong form of the channel / listener invariants, between two requests) claimed channel ends and bus listeners belong
-    // to connected clients
-    spec fn chan_owners_connected(&self) -> bool {
-        forall|c: ChannelCookie| #![trigger self.channels@[c]] self.channels@.contains_key(c) ==> {
-            &&& (self.channels@[c].sender is Claimed ==> self.connected_id(self.channels@[c].sender.owner_id()))
-            &&& (self.channels@[c].receiver is Claimed ==> self.connected_id(self.channels@[c].receiver.owner_id()))
-        }
-    }
-    spec fn bl_owners_connected(&self) -> bool {
-        forall|c: BusListenerCookie| #![trigger self.bus_listeners@[c]] self.bus_listeners@.contains_key(c) ==>
-            self.conns@.contains_key(self.bus_listeners@[c].conn_id)
-    }
-
     // COVERAGE: whatever still refers to `id` is on one of the lists of `conn` (so the loops over those lists reach it)
     spec fn cov_bl(&self, id: ConnectionId, conn: &ConnectionState) -> bool {
         forall|c: BusListenerCookie| #![trigger self.bus_listeners@[c]] self.bus_listeners@.contains_key(c)
